@@ -190,3 +190,44 @@ Definition accept (s : sstate) (o : op) (r : out) : sstate + N :=
   | ConcObs co, RNone => match conc_clause s co with Some k => inr k | None => inl s end
   | _, _ => inr 9%N
   end.
+
+(* ---- monitor for the Manager with a real subscriber_nat kernel map ----
+   clauses 0-4 as above on the Manager calls (a failed AllocateNAT is an RErr: it must write no
+   record; nothing may be reported for that private IP afterwards; a later success is a new
+   assignment and must write exactly its assign record), plus
+   clause 3 on stats: GetAllocationCount = number of holders
+   clause 5  kernel map : subscriber_nat holds exactly one entry per holder, carrying its block
+                          (public IP, start, end, next = start, subscriber id), and nothing else
+                          except the keys the harness put there itself *)
+Record ksstate := { ks_ss : sstate; ks_foreign : list Z }.
+Definition ksinit (c : cfg) (m : logmode) : ksstate := {| ks_ss := sinit c m; ks_foreign := [] |}.
+
+Definition kentry_is (b : blk) (e : kentry) : bool :=
+  (ke_key e =? b_priv b) && (ke_pub e =? b_pub b) && (ke_start e =? b_start b) && (ke_end e =? b_end b) &&
+  (ke_next e =? b_start b) && ke_rest0 e.
+
+Definition kmap_ok (tab : list blk) (foreign : list Z) (l : list kentry) : bool :=
+  forallb (fun b => existsb (kentry_is b) l) tab &&
+  forallb (fun e => existsb (fun b => b_priv b =? ke_key e) tab || existsb (Z.eqb (ke_key e)) foreign) l &&
+  Nat.eqb (length (filter (fun e => existsb (fun b => b_priv b =? ke_key e) tab) l)) (length tab).
+
+Definition kaccept (s : ksstate) (o : kop) (r : kout) : ksstate + N :=
+  match o, r with
+  | KO o', KOut r' =>
+      match accept (ks_ss s) o' r' with
+      | inr c => inr c
+      | inl ss' =>
+          match o', o_res r' with
+          | Stats, RStats cnt _ => if cnt =? Z.of_nat (length (ss_tab ss')) then inl {| ks_ss := ss'; ks_foreign := ks_foreign s |} else inr 3%N
+          | _, _ => inl {| ks_ss := ss'; ks_foreign := ks_foreign s |}
+          end
+      end
+  | KPut k, KOut r' =>
+      match o_res r' with
+      | RNone => inl {| ks_ss := ks_ss s; ks_foreign := k :: ks_foreign s |}
+      | _ => inl s
+      end
+  | KDel k, KOut _ => inl {| ks_ss := ks_ss s; ks_foreign := filter (fun x => negb (x =? k)) (ks_foreign s) |}
+  | KDump, KMap l => if kmap_ok (ss_tab (ks_ss s)) (ks_foreign s) l then inl s else inr 5%N
+  | _, _ => inr 9%N
+  end.
